@@ -20,10 +20,62 @@ def plan_total(key):
         "core_proof_gen": "verify_entry", "PoKSignature.proof_gen": "verify_entry",
     }
     fam = table.get(key)
+    if fam in ("verify_entry",):
+        return [("proof_sound", _viol, "entry point panics / accepts"), ("proof_complete", _viol, "entry point panics / refuses")]
     return [(fam, _panic, "entry point panics")] if fam else []
 
 
+def _viol(p):
+    t = p["tags"]
+    o = p["outcome"]
+    return o.startswith("panic:") or ("expect-ok" in t and not o.startswith("ok:")) or ("expect-err" in t and o.startswith("ok:"))
+
+
+PREFIX_FAMILIES = [
+    ("C01.core_verify", ["sig_complete", "sig_binding"]), ("C01.verify", ["sig_complete", "sig_binding"]), ("C01.", ["sig_complete"]),
+    ("C02.", ["sig_binding"]), ("C10.core_sign", ["sig_complete"]), ("C10.sign", ["sig_complete"]),
+    ("C03.", ["proof_complete"]), ("C04.proof_verify", ["proof_sound", "proof_complete", "forgery"]), ("C04.", ["proof_sound", "forgery"]),
+    ("C05.", ["blind_complete"]), ("C06.", ["blind_sound"]), ("C07.", ["fresh"]), ("C12.", ["update_history", "update_signature"]),
+    ("C10.domain", ["sig_complete", "proof_complete"]), ("C10.h2s", ["sig_complete"]), ("C10.challenge", ["proof_complete", "proof_sound"]),
+    ("C10.blind_challenge", ["blind_complete", "blind_sound"]), ("C10.generators", ["sig_complete", "blind_complete"]),
+    ("C10.msgs_to_scalars", ["sig_complete", "sig_binding"]), ("C10.map_msg", ["update_history"]), ("C10.", ["sig_complete", "proof_complete"]),
+    ("C11.", ["sig_binding", "proof_sound"]),
+]
+FN_FAMILIES = [
+    ("blind_proof", ["blind_complete", "blind_counts"]), ("blind", ["blind_complete", "blind_sound"]), ("commit", ["blind_complete", "blind_sound"]),
+    ("proof_verify", ["proof_sound", "proof_complete"]), ("proof", ["proof_complete", "proof_sound"]),
+    ("update_signature", ["update_history", "update_signature"]), ("signature", ["sig_complete", "sig_binding"]),
+    ("calculate_domain", ["sig_complete", "proof_complete", "blind_complete"]), ("generators", ["sig_complete", "blind_complete"]),
+    ("util", ["sig_complete", "proof_complete", "blind_complete"]), ("message", ["sig_complete"]), ("keys", ["sig_complete"]),
+]
+
+
+def _fams_for_fn(fn):
+    for key, fams in FN_FAMILIES:
+        if key in (fn or ""):
+            return fams
+    return []
+
+
 def plan(label, fn):
+    if label.startswith("C08.") and label.endswith(".total"):
+        fams = _fams_for_fn(fn)
+        return [(f, _viol, "the entry point panics / contradicts the property on this input") for f in fams]
+    for pre, fams in PREFIX_FAMILIES:
+        if label.startswith(pre):
+            out = []
+            for f in fams:
+                if f == "forgery":
+                    out.append((f, lambda p: "forgery" in p["tags"] and _ok(p), "a proof assembled from public data only is accepted"))
+                elif f in ("update_signature", "blind_counts"):
+                    out.append((f, _panic, "entry point panics"))
+                else:
+                    out.append((f, _viol, "observed outcome contradicts the property (expect-ok refused / expect-err accepted / panic)"))
+            return out
+    return _plan_old(label, fn)
+
+
+def _plan_old(label, fn):
     if label.startswith("C04.verify") or label.startswith("C04.nonidentity") or label.startswith("C04.vinit"):
         return [("forgery", lambda p: "forgery" in p["tags"] and _ok(p), "a proof assembled from public data only is accepted")]
     if label.startswith("C06.") or label.startswith("C05."):
